@@ -698,7 +698,7 @@ pub fn t_names(a: &[i64]) -> Val {
 //   type T { [vftable { pub fn <vname>(&self); }]  (#[base] pub b: Bz | pub a2: u32),  pub a: u32 }
 //   impl T { #[address(addr0)] pub fn g0(recv0, a0: u32) -> u32;  [#[address(addr1)] pub fn (g1 | g0)(recv1) -> u64;] }
 // a = [ps, addr0, addr1, n_impl, second_same_name, vft_kind (0 none, 1 g0, 2 g1, 3 h), base_kind (0 none, 1 pub g0, 2 pub g1, 3 private g0, 4 pub h),
-//      recv0, recv1]
+//      recv0, recv1, first_internal]
 pub fn t_implname(a: &[i64]) -> Val {
     let ps = a[0] as usize;
     let recv = |k: i64| -> Vec<Ar> {
@@ -747,7 +747,9 @@ pub fn t_implname(a: &[i64]) -> Val {
     defs.push(ID::new((V::Public, "T"), TD::new(stmts).with_attributes([A::align(t_align)])));
     let mut a0 = recv(a[7]);
     a0.push(Ar::named("a0", T::ident("u32")));
-    let mut fns: Vec<F> = vec![F::new((V::Public, "g0"), a0)
+    // a[9]: the first function is internal (`_g0`): pyxis emits no wrapper for it, the following ones keep their own signature and convention
+    let first_name = if a.len() > 9 && a[9] != 0 { "_g0" } else { "g0" };
+    let mut fns: Vec<F> = vec![F::new((V::Public, first_name), a0)
         .with_attributes([A::integer_fn("address", a[1] as isize)])
         .with_return_type(T::ident("u32"))];
     if a[3] >= 2 {
